@@ -12,7 +12,7 @@ import (
 func init() {
 	register(&propDef{
 		id: "C03", level: "other", perCfg: true,
-		explain: "Necessary structural conditions of C03, decided for all paths. P1 raw preservation (type rule): the structs that are the targets of json.Unmarshal at the frame reads (service request, client reply; found by role) keep the member with JSON key `parameters` as json.RawMessage - the library never decodes parameters into interface{}/float64 on the way. P2 inbound flow: the handler-facing accessor decodes exactly the raw request parameters (nil-guarded) into the caller's value; the client's receive decodes exactly the raw reply parameters into the caller's value. P3 outbound flow: Send stores its parameters argument unchanged in the marshalled call; the reply functions store theirs unchanged in the marshalled reply. P4 wire-schema agreement: JSON key sets and Go kinds of the encoder and decoder structs agree in both directions (call: method string, parameters, more/oneway/upgrade bool; reply: parameters, continues bool, error string). P5 continues mapping: receive returns the exported Continues bit exactly on the edge `continues member == true`, and 0 on the complementary edge - every success return has tested the member. P6 transports are pass-through: PipeCon.Read/Write hand the caller's slice to the pipe ends and return their results; the bridge wires reader <- StdoutPipe and writer <- StdinPipe (not swapped) in every GOOS variant; NewConnection hands (protocol, address) to the dialer (with C19.A4); P7: the frame path shared by all transports reads each frame with one direct bufio.Reader.ReadBytes and returns it unchanged (re-evaluated from C02.F2). P12 (= C02.F1) nothing rewrites the encoded frame between the encoder and the write. P13 (= C11.N4) every reply is decoded into a fresh value. P14 no function of the write path that takes the reply object as a parameter assigns a member of it. P15 (= C01.R5) every request is decoded into a fresh value that is not kept in shared state: members absent from a frame must not show what an earlier call left behind.",
+		explain: "Necessary structural conditions of C03, decided for all paths. P1 raw preservation (type rule): the structs that are the targets of json.Unmarshal at the frame reads (service request, client reply; found by role) keep the member with JSON key `parameters` as json.RawMessage - the library never decodes parameters into interface{}/float64 on the way. P2 inbound flow: the handler-facing accessor decodes exactly the raw request parameters (nil-guarded) into the caller's value; the client's receive decodes exactly the raw reply parameters into the caller's value. P3 outbound flow: Send stores its parameters argument unchanged in the marshalled call; the reply functions store theirs unchanged in the marshalled reply. P4 wire-schema agreement: JSON key sets and Go kinds of the encoder and decoder structs agree in both directions (call: method string, parameters, more/oneway/upgrade bool; reply: parameters, continues bool, error string). P5 continues mapping: receive returns the exported Continues bit exactly on the edge `continues member == true`, and 0 on the complementary edge - every success return has tested the member. P6 transports are pass-through: PipeCon.Read/Write hand the caller's slice to the pipe ends and return their results; the bridge wires reader <- StdoutPipe and writer <- StdinPipe (not swapped) in every GOOS variant; NewConnection hands (protocol, address) to the dialer (with C19.A4); P7: the frame path shared by all transports reads each frame with one direct bufio.Reader.ReadBytes and returns it unchanged (re-evaluated from C02.F2). P12 (= C02.F1) nothing rewrites the encoded frame between the encoder and the write. P13 (= C11.N4) every reply is decoded into a fresh value. P14 no function of the write path that takes the reply object as a parameter assigns a member of it. P15 (= C01.R5) every request is decoded into a fresh value that is not kept in shared state: members absent from a frame must not show what an earlier call left behind. P10 (= C01.R2), P11 (= C17.D1-D3,D6), P15 (= C01.R5) are re-evaluated here. P2 also: the bridge reports success only after the frame was decoded. P6: the bridge command is started on every path that hands out its pipes.",
 		notDec:  "JSON equality of arbitrary documents (delegated to encoding/json given P1-P3: raw bytes in, raw bytes out); kernel behaviour of the four transports.",
 		trusted: []string{"encoding/json: a json.RawMessage member receives / emits the member's bytes verbatim (modulo validation and compaction of insignificant whitespace)"},
 		run:     runC03,
